@@ -242,11 +242,24 @@ pub fn check_cli(ctx: &Ctx, bin: &str, frames: &[Vec<u8>]) -> Check {
     let outpath = dir.join(format!("c07-out-{}-{:?}.jsonl", std::process::id(), std::thread::current().id()));
     let _ = std::fs::remove_file(&outpath);
     let output_args: Vec<String> = if to_file { vec!["-o".into(), outpath.to_str().unwrap().into()] } else { vec![] };
+    // a quarter of the -o batches go to a file that already holds the output of an earlier, longer run (the option
+    // appends: operators keep one file per day): the earlier lines must still be there, untouched, and every line after
+    // them must be a record of this run
+    let earlier: String = if to_file && h64(&frames) % 8 < 4 { (0..3).map(|k| format!("{{\"timestamp\":{}.5,\"frame\":\"8d4840d6202cc371c32ce0576098\",\"df\":\"17\",\"note\":\"{}\"}}\n", 1_600_000_000 + k, "x".repeat(700 + 300 * k))).collect() } else { String::new() };
+    let prepare = || {
+        if !earlier.is_empty() {
+            let _ = std::fs::write(&outpath, &earlier);
+        }
+    };
     let collect = |out: &std::process::Output| -> String {
         if to_file {
             let t = std::fs::read_to_string(&outpath).unwrap_or_default();
             let _ = std::fs::remove_file(&outpath);
-            t
+            match t.strip_prefix(earlier.as_str()) {
+                Some(rest) => rest.to_string(),
+                // the earlier output was damaged: hand back everything, the line checks below report what they find
+                None => format!("<the {} bytes an earlier run had left in the -o file are no longer intact>\n{t}", earlier.len()),
+            }
         } else {
             String::from_utf8_lossy(&out.stdout).to_string()
         }
@@ -254,7 +267,11 @@ pub fn check_cli(ctx: &Ctx, bin: &str, frames: &[Vec<u8>]) -> Check {
     if to_file {
         ctx.class("decode1090 batch written with -o file");
     }
+    if !earlier.is_empty() {
+        ctx.class("decode1090 -o file that already holds the output of an earlier run");
+    }
     // 1. argument mode
+    prepare();
     let out = std::process::Command::new(bin).args(&output_args).args(accepted.iter().map(|(f, _)| hex::encode(f))).output();
     let Ok(out) = out else {
         eprintln!("INCONCLUSIVE: decode1090 could not be started");
@@ -284,6 +301,7 @@ pub fn check_cli(ctx: &Ctx, bin: &str, frames: &[Vec<u8>]) -> Check {
             writeln!(fh, "{}", json!({"timestamp": 1_700_000_000.0 + i as f64 * 0.25, "frame": hex::encode(f)})).unwrap();
         }
     }
+    prepare();
     let out = std::process::Command::new(bin).args(["-i", path.to_str().unwrap(), "-d", "0"]).args(&output_args).output();
     let _ = std::fs::remove_file(&path);
     let Ok(out) = out else {
